@@ -488,6 +488,12 @@ func runC05(c *Ctx) {
 			strings.HasPrefix(k, "invalid-password-only-on-digest-mismatch") // "the current passphrase always unlocks": refused only when the digest differs
 	})
 	// ... whatever accounts exist: a rewritten account row (rename) keeps the encrypted private key it had
+	// "while locked, private decryption fails": nothing private is sealed under the public crypto key, which stays in
+	// memory while locked (C04-R2's rule; called directly — C04 takes a rule of C05 over)
+	c.Borrow(func(c2 *Ctx) { checkPublicClassPlaintext(c2, "C05-R1") }, "C05-R1", "C05-R1", func(k string) bool {
+		return strings.HasPrefix(k, "public-class-seals-neutered-key")
+	})
+	checkLockStateTestedUnderManagerMutex(c, "C05-R3")
 	checkRowRewrites(c, "C05-R3")
 	checkAccountWithoutPrivateKey(c, "C05-R3")
 	checkPendingDerivationsHaveAccounts(c, "C05-R3")
